@@ -110,6 +110,11 @@ func (k msgServer) ProcessUndPurchaseOrder(goCtx context.Context, msg *types.Msg
 		if msg.Signer == d.Signer {
 			return nil, sdkerrors.Wrapf(types.ErrSignerAlreadyMadeDecision, "signer %s already decided: %s", msg.Signer, d.Decision.String())
 		}
+		// the same account may be spelled differently in the message (bech32 also accepts an all
+		// upper-case form): compare the addresses, not the strings
+		if dAddr, dErr := sdk.AccAddressFromBech32(d.Signer); dErr == nil && dAddr.Equals(signer) {
+			return nil, sdkerrors.Wrapf(types.ErrSignerAlreadyMadeDecision, "signer %s already decided: %s", msg.Signer, d.Decision.String())
+		}
 	}
 
 	err := k.ProcessPurchaseOrderDecision(ctx, msg.PurchaseOrderId, msg.Decision, signer)
